@@ -14,7 +14,7 @@ from ..tables import rule
 from . import analysis
 
 rule("C04.d", "split re-basing: the index shift accumulates len(c) of the interval problems in the loop that collects problems "
-              "and mappings; c and x are concatenated over the same list in order", floor=4, props=["C04", "C14"])
+              "and mappings; c and x are concatenated over the same list in order", floor=4, props=["C04", "C14", "C01", "C07"])
 rule("C14.c", "after the interval loop the full grid is re-set on the portfolio and on every asset, on every path to the return", floor=2)
 rule("C14.f", "interval boundaries are consecutive pairs of one sequence extended to start at grid start and end at grid end", floor=3)
 rule("C18.c", "time steps and nodal records of an interval are re-based through the same array of original steps; records and "
